@@ -102,7 +102,7 @@ def run_one(binary, args, timeout=120):
 
 REPO_FILES = ("client.c", "iodined.c", "iodine.c", "dns.c", "read.c", "user.c", "encoding.c", "base32.c", "base64.c", "base64u.c", "base128.c", "common.c", "tun.c",
               "login.c", "md5.c", "fw_query.c", "util.c")
-VG_KINDS = (("Conditional jump or move depends on uninitialised", "uninit.branch"), ("Use of uninitialised value", "uninit.use"), ("Syscall param", "uninit.syscall"),
+VG_KINDS = (("Uninitialised byte(s) found during client check request", "uninit.output"), ("Conditional jump or move depends on uninitialised", "uninit.branch"), ("Use of uninitialised value", "uninit.use"), ("Syscall param", "uninit.syscall"),
             ("Invalid read", "invalid.read"), ("Invalid write", "invalid.write"), ("Source and destination overlap", "overlap"), ("Invalid free", "invalid.free"),
             ("Mismatched free", "invalid.free"), ("Argument", "fishy.argument"))
 
@@ -139,6 +139,8 @@ def parse_valgrind(err):
             if not where:
                 if fn in REPO_FILES:
                     where = "%s@%s" % (func, loc)
+                elif fn == "wraps.cc" and func.startswith("__wrap_"):
+                    continue          # the libc seam itself (e.g. the definedness check of outgoing bytes): look at its caller
                 elif fn.endswith(".cc") or fn.endswith(".h"):
                     harness = True
                     break
